@@ -68,3 +68,16 @@ func (l LineString) Points() func() Point {
 		return l[i-1]
 	}
 }
+
+// comesBack reports whether the line l, of more than two vertices, ends within
+// rounding of where it starts.
+func comesBack(l Path) bool {
+	n := len(l)
+	if n < 3 {
+		return false
+	}
+	near := func(a, b float64) bool {
+		return math.Abs(a-b) <= 1e-12*math.Max(1, math.Max(math.Abs(a), math.Abs(b)))
+	}
+	return near(l[0].X, l[n-1].X) && near(l[0].Y, l[n-1].Y)
+}
